@@ -194,6 +194,19 @@ CHECKS = {
         "(terminator listed as a dictionary word suppresses breaks) was repaired.",
    technique="TLA+ spec Sentences + TLC over all short texts; I->S trace validation of the real splitter on every enumerated case and on random texts (Trace_Sentences)",
    design="4 C16"),
+ "C03": dict(
+   category="conformance_testing",
+   text="Totality.tla gives an analysis an outcome algebra {ok, toolong, err} whose admissible value is a function of the original length, the rewritten length and the presence of a fallback "
+        "OOV provider (ok within 49,149 / 65,535 bytes, toolong beyond); a panic, overflow or failed debug assertion is a value no action produces. TLC enumerates, at the REAL constants, every "
+        "composition of kept, shrinking (3->1 byte) and expanding (3->33 bytes, U+FDFA) characters that sits one below, on and one above either limit; each is analysed by the real tokenizer in four "
+        "block orders and the event (outcome, reported lengths, coverage of the text, a call of every morpheme accessor and the split API in all modes) is validated by TLC, together with "
+        "~20k (thorough: ~3.4M) recorded analyses of hostile inputs: a sweep over the Unicode scalars, NUL/control/unassigned/astral/ZWJ/combining mixtures, repeated units around 49,149 bytes, "
+        "cost-extreme and random generated dictionaries, short histories on one tokenizer with a reused result list (empty inputs after non-empty ones). Built with debug assertions and overflow checks.",
+   note="Not exhaustive: inputs are sampled (every scalar alone/doubled in the thorough tier) and configurations are 7 fixture stacks + generated dictionaries. Out-of-bounds reads are seen only "
+        "through the debug assertions guarding the unchecked indexing; no sanitizer. Two genuine defects are recorded as known findings (i32 path-cost overflow at cost extremes; "
+        "get_internal_cost over split pieces), two were repaired (intermediate-length refusal; NUL byte continuing a lexicon match).",
+   technique="TLA+ spec Totality + TLC enumeration of limit compositions at the real constants, replayed on the real tokenizer (S->I); I->S trace validation of recorded outcomes (Trace_Totality)",
+   design="4 C03"),
 }
 
 NOT_YET = "no check registered yet in this revision (work in progress; see DESIGN.md section 8 build order)"
